@@ -1,12 +1,74 @@
 /- Driver operations of contributor `Get` (translated-code ties): run GENERATED functions so the harness can compare them with the real code.
    Wired into the cluster drivers by a fall-through; return `none` for names that are not yours. -/
 import PdbVerif.Driver.Json
+import PdbVerif.Driver.BJson
+import PdbVerif.Gen.Get
 
 namespace Driver.ExtGet
-open Lean Driver
+open Lean Driver Driver.B Tbl
 
+def errJ (e : Model.Err) : Json := .str ("ERR:" ++ e.tag)
+
+def resultJ : Except Model.Err Model.Result → Json
+  | .ok (.data items) => itemsJ items
+  | .ok (.models per) => Json.mkObj [("models", .arr (per.map itemsJ).toArray)]
+  | .error e => errJ e
+
+def outJ : Except Model.Err Unit → Json
+  | .ok _ => "ok"
+  | .error e => errJ e
+
+/-- one modification through the GENERATED methods (`vstr` = Python's `str(value)` of an `add_column`, carried by the case);
+    `_fix_chainID` is not translated: the hand model -/
+def genStep (db : Db) (op : Tbl.Op) (vstr : Py.Str) : Db × Except Model.Err Unit :=
+  match op with
+  | .update c v tn kw => GenG.update db c v tn kw
+  | .updateXyz v tn kw => GenG.update_xyz db v tn kw
+  | .updateColumn c v i tn => GenG.update_column db c v i tn
+  | .addColumn n ty v tn => GenG.add_column (fun _ => vstr) db n ty v tn
+  | .fixChainID => Model.fixChainID db
+
+/-- a history through the generated methods, in the format of `ModelB.runHist` -/
+def runHistG (db : Db) : List (HistItem × Py.Str) → List Json
+  | [] => []
+  | (.modify op, vstr) :: rest =>
+    let (db', out) := genStep db op vstr
+    Json.mkObj [("out", outJ out), ("db", dbJ db')] :: runHistG db' rest
+  | (.query columns tn kw, _) :: rest =>
+    Json.mkObj [("out", resultJ (GenG.get db columns tn kw)), ("db", dbJ db)] :: runHistG db rest
+
+/-- the GENERATED `get` / wrappers / modifying methods (Gen/Get.lean: whole functions, MicroSql as the engine) -/
 def op (name : String) (j : Json) : Except String (Option Json) := do
   match name with
+  | "g_get_xyz" =>
+    let db ← dbOfJson (← j.getObjVal? "db")
+    let tn ← strOf j "tn"; let kw ← kwsOfJson j "kw"
+    pure (some (Json.mkObj [("gen", resultJ (GenG.get_xyz db tn kw)), ("hand", resultJ (Model.get_xyz db tn kw))]))
+  | "g_get_residues" =>
+    let db ← dbOfJson (← j.getObjVal? "db")
+    let f := fun (r : Except Model.Err (List (List Val))) => match r with
+      | .ok l => Json.arr (l.map (fun vs => Json.arr (vs.map valJ).toArray)).toArray
+      | .error e => errJ e
+    let tn ← strOf j "tn"; let kw ← kwsOfJson j "kw"
+    pure (some (Json.mkObj [("gen", f (GenG.get_residues db tn kw)), ("hand", f (Model.get_residues db tn kw))]))
+  | "g_get_chains" =>
+    let db ← dbOfJson (← j.getObjVal? "db")
+    let f := fun (r : Except Model.Err (List Py.Str)) => match r with
+      | .ok l => Json.arr (l.map strJ).toArray
+      | .error e => errJ e
+    let tn ← strOf j "tn"; let kw ← kwsOfJson j "kw"
+    pure (some (Json.mkObj [("gen", f (GenG.get_chains db tn kw)), ("hand", f (Model.get_chains db tn kw))]))
+  | "g_hist" =>
+    let db ← dbOfJson (← j.getObjVal? "db")
+    let ops ← (← jArr j "ops").toList.mapM (fun o => do
+      let it ← histItemOfJson o
+      let vs := match o.getObjVal? "value_str" with | .ok (.str s) => s.toList | _ => []
+      pure (it, vs))
+    pure (some (Json.mkObj [("gen", .arr (runHistG db ops).toArray)]))
+  | "g_get" =>
+    let db ← dbOfJson (← j.getObjVal? "db")
+    let columns ← strOf j "columns"; let tn ← strOf j "tn"; let kw ← kwsOfJson j "kw"
+    pure (some (Json.mkObj [("gen", resultJ (GenG.get db columns tn kw)), ("hand", resultJ (Model.get db columns tn kw))]))
   | _ => pure none
 
 end Driver.ExtGet
